@@ -11,6 +11,7 @@ import (
 	"fmt"
 	"os"
 	"reflect"
+	"strconv"
 	"strings"
 	"time"
 
@@ -411,6 +412,26 @@ func c14Run(j vs.Job) *vs.JobResult {
 				c.Seg = fmt.Sprintf("cut:%s:%d", d.name, off)
 				list = append(list, c)
 			}
+			// every set of two or more read boundaries inside the first 8 bytes (the marker the relay looks
+			// for is 6 bytes long): the marker arrives in three or more reads, some shorter than what the relay keeps
+			maxCuts := 2
+			if j.Tier == "thorough" {
+				maxCuts = 7
+			}
+			for mask := 1; mask < 1<<7; mask++ {
+				var offs []string
+				for b := 0; b < 7; b++ {
+					if mask&(1<<b) != 0 && start+1+b < end {
+						offs = append(offs, strconv.Itoa(start+1+b))
+					}
+				}
+				if len(offs) < 2 || len(offs) > maxCuts {
+					continue
+				}
+				c := base
+				c.Seg = fmt.Sprintf("cut:%s:%s", d.name, strings.Join(offs, "+"))
+				list = append(list, c)
+			}
 		}
 	}
 	for i, wp := range list {
@@ -463,7 +484,7 @@ func init() {
 		Level: "exploration",
 		Rule: "(i) all 1152 client actions (binary x directory x fork x protocol 1..9 x newline x tunnel x confirm) x 6 representative server configurations and all 1728 server configurations (every option subset x bufsize x timeout x pane width x compress) x 8 representative actions through the real relay's handshake, outside tmux and (a subset) inside tmux; " +
 			"(ii) every sequence of 1..2 (quick) / 1..3 (thorough) transfers over {upload, download, refused, failed on the client, failed on the server, Ctrl-C keep, Ctrl-C delete} through one and two relay instances, each followed by a transparency probe, then a transfer that must succeed; " +
-			"(iii) every cut position inside the last protocol message of a transfer on the wire the relay reads",
+			"(iii) every cut position inside the last protocol message of a transfer on the wire the relay reads, and every set of 2 (quick) / 2..7 (thorough) read boundaries inside its first 8 bytes",
 		Assumptions: []string{"escape tables are not enumerated as server configuration: a relay never lets binary mode be negotiated without a tunnel, so no real server sends one through it",
 			"CFG equality is judged on what the client decodes (transferConfig), not on the byte form", "'refused' uses a fake zenity on PATH that reports the dialog as cancelled"},
 		QuickBudget: 110, ThoroughBudget: 1200, DiedIsViolation: true,
